@@ -19,7 +19,7 @@ def run(tier, seed):
     if not ck.proof['driver_ok']:
         ck.notes['driver'] = 'unavailable: model-side runs skipped, searching with the implementation-side oracles only'
     import soupsieve as sv
-    n = 100 if tier == 'quick' else 2500
+    n = 160 if tier == 'quick' else 2500
     custom = {':--cust': 'p, div > span', ':--c2': ':is(a, :--cust):not(.x)'}
     scs = []
     for profile in ('core', 'forms', 'langdir', 'ns', 'contains'):
@@ -73,6 +73,9 @@ def run(tier, seed):
                             B = f'{anc_.name} {el_.name}'
                             if rnd.random() < 0.5:
                                 A, B = B, A
+                if it == 1 and len(pools['names']) >= 2:
+                    # two plain type selectors for names that occur in the tree, as spelled there or in another ASCII case
+                    A, B = [sv.escape(rnd.choice([n_, n_, n_.lower(), n_.upper()])) for n_ in rnd.sample(pools['names'], 2)]
                 X = rnd.choice(['*|*', 'p', 'div', '.x', 'input', '*'])
                 pats = {'A': A, 'B': B, 'A,B': f'{A}, {B}', 'isA': f':is({A})', 'isB': f':is({B})', 'isAB': f':is({A}, {B})',
                         'notA': f':not({A})', 'notAB': f':not({A}, {B})', 'whereAB': f':where({A}, {B})',
